@@ -83,6 +83,7 @@ enum {
     F_SUBBUF,
     F_BIG_GROWTH,
     F_SECURE_SHORT_UNALIGNED,
+    F_CAT_DEST_AS_SOURCE,
     F_NFLAGS
 };
 static const char *s_flag_names[F_NFLAGS] = {
@@ -114,6 +115,7 @@ static const char *s_flag_names[F_NFLAGS] = {
     "sub_buffer_from_advance_written",
     "dynamic_growth_of_buffer_of_16MiB_or_more",
     "secure_wipe_of_short_unaligned_view",
+    "cat_with_destination_among_the_sources",
 };
 
 /* ------------------------------------------------------------------ state */
@@ -1270,7 +1272,14 @@ static void op_cat(struct mon_rng *r) {
     struct mbuf *m = &s_buf[i];
     int k = 1 + (int)mon_below(r, 3), src[3];
     for (int q = 0; q < k; ++q) {
-        src[q] = live_buf(r, i);
+        /* the destination itself may be one of the sources (doubling a buffer): each source is appended as it is at that
+         * moment, the space test is made per source */
+        if (mon_chance(r, 1, 5)) {
+            src[q] = i;
+            mon_flag(F_CAT_DEST_AS_SOURCE);
+        } else {
+            src[q] = live_buf(r, i);
+        }
         if (src[q] < 0) {
             op_init(r);
             return;
